@@ -435,11 +435,16 @@ def build(world):
     wb = pw.WorkflowBuilder(name='wf')
     m = Mirror()
     nops = 2 + t.draw(16, 'nops')
+    snaps = []
     for _ in range(nops):
         if len(m.nodes) >= 12:
             break
         op = t.weighted([(10, 'add'), (3, 'replace'), (3, 'insert'), (1, 'roundtrip'), (1, 'plus'),
-                         (1, 'refused'), (1, 'readd')], 'op')
+                         (1, 'refused'), (1, 'readd'), (2, 'snapshot')], 'op')
+        # Workflows frozen earlier are immutable values: later builder operations must not
+        # change them
+        for (snap, sm_, label) in snaps:
+            compare(world, snap, sm_, 'earlier-frozen-workflow-changed')
         if op == 'add' or not m.nodes:
             uid = world.new_task()
             k = t.weighted([(2, 0), (5, 1), (4, 2), (2, 3), (1, 4)], 'npred')
@@ -510,6 +515,12 @@ def build(world):
             world.ops.append(f'insert sub{sm.nodes} edges{sorted(sm.edges)} after {outp} ({shape})')
             world.count('op.insert.' + shape)
             compare(world, wb, m, 'insert_workflow')
+            snaps.append((other, sm.copy(), 'inserted Workflow'))
+        elif op == 'snapshot':
+            if m.nodes:
+                snaps.append((pw.Workflow(wb), m.copy(), f'Workflow frozen after {len(world.ops)} operations'))
+                world.ops.append('snapshot = Workflow(builder)  (builder keeps being used)')
+                world.count('op.snapshot')
         elif op == 'roundtrip':
             wf = pw.Workflow(wb)
             compare(world, wf, m, 'Workflow(builder)')
@@ -566,6 +577,8 @@ def build(world):
         if len(preds) >= 3:
             world.count('probe.join_3plus')
         compare(world, wb, m, 'add_task')
+    for (snap, sm_, label) in snaps:
+        compare(world, snap, sm_, 'earlier-frozen-workflow-changed')
     wf = pw.Workflow(wb)
     compare(world, wf, m, 'Workflow(builder)')
     world.uses_results_string = any('results' in world.spec[u]['static'] for u in m.nodes)
